@@ -211,7 +211,8 @@ class Channel(BaseChannel):
         finally:
             if self._inbound:
                 self._inbound.clear()
-            self.set_state(self.CLOSED)
+            with self._close_lock:
+                self.set_state(self.CLOSED)
         LOGGER.debug('Channel #%d Closed', self.channel_id)
 
     def check_for_errors(self,):
@@ -530,13 +531,17 @@ class Channel(BaseChannel):
         :param specification.Channel.Close frame_in: Channel Close frame.
         :return:
         """
-        self.set_state(self.CLOSING)
-        if not self._connection.is_closed:
-            try:
-                self._connection.write_frame(self.channel_id,
-                                             specification.Channel.CloseOk())
-            except AMQPError:
-                pass
+        with self._close_lock:
+            # A close() racing with this must not mark the channel closed,
+            # and its number free, before the CloseOk has been written.
+            self.set_state(self.CLOSING)
+            if not self._connection.is_closed:
+                try:
+                    self._connection.write_frame(
+                        self.channel_id, specification.Channel.CloseOk()
+                    )
+                except AMQPError:
+                    pass
         self.remove_consumer_tag()
         if self._inbound:
             self._inbound.clear()
